@@ -118,6 +118,14 @@ def generate(ctx):
                "batch_reduction": rng.choice([None, None, "sum", "amax", "mean"]),
                "shape": list(rng.choice([(3,), (2, 2), (1,), (2, 1, 2), (5,)])), "seed": rng.randrange(1 << 30),
                "steps": steps}
+    # the adaptation update functions on their own (one of them is shipped without a neuron class that uses it): the
+    # documented update, frozen for refractory neurons, floor applied after a spike
+    for i in range(300 if th else 30):
+        yield {"part": "adaptation_fn", "fn": ["currents_linear", "thresholds_linear_voltage", "thresholds_linear_spike"][i % 3],
+               "B": rng.choice([None, 1, 3]), "shape": list(rng.choice([(3,), (2, 2), (1,)])), "K": rng.randint(1, 3),
+               "dt": rng.choice([1.0, 0.5, 0.1, round(rng.uniform(0.05, 2.5), 3)]), "refracs": rng.random() < 0.7,
+               "floor": rng.choice([None, 0.0, -1.5, 2.0]), "with_spikes": rng.random() < 0.8, "seed": rng.randrange(1 << 30),
+               "tensor_params": rng.random() < 0.5}
     # exact ties v == threshold on representable numbers (quadratic neurons, fresh state: dynamics term vanishes)
     for cls in ("QIF", "Izhikevich"):
         for off in (0.0, 2.0 ** -40, -(2.0 ** -40)):
@@ -181,9 +189,57 @@ def _solve_input(cls, p, dt, v, target):
     return ((target - v) * tau / dt - g) / R
 
 
+def _adaptation_fn(ctx, desc):
+    import inferno.neural.functional as nf
+    g = torch.Generator().manual_seed(desc["seed"])
+    K, dt = desc["K"], desc["dt"]
+    nshape = tuple(desc["shape"])
+    full = nshape if desc["B"] is None else (desc["B"],) + nshape
+    rnd = lambda *shp, lo=0.0, hi=1.0: torch.rand(shp, generator=g, dtype=torch.float64) * (hi - lo) + lo
+    adapt = rnd(*nshape, K, lo=-3.0, hi=3.0)
+    volt = rnd(*full, lo=-80.0, hi=-40.0)
+    spikes = rnd(*full) < 0.4
+    refr = torch.where(rnd(*full) < 0.5, torch.zeros(full, dtype=torch.float64), rnd(*full, lo=0.1, hi=3.0))
+    par = (lambda lo, hi: rnd(K, lo=lo, hi=hi)) if desc["tensor_params"] else (lambda lo, hi: float(rnd(1, lo=lo, hi=hi)))
+    refracs = refr if desc["refracs"] else None
+    fn = desc["fn"]
+    ctx.case(f"adaptation_fn/{fn}/B{desc['B']}/K{K}/refracs{int(desc['refracs'])}/floor{desc['floor']}/spk{int(desc['with_spikes'])}")
+    A, V, S = adapt.numpy(), volt.numpy()[..., None], spikes.numpy()[..., None]
+    frozen = (refr.numpy()[..., None] > 0) if desc["refracs"] else np.zeros(full + (1,), dtype=bool)
+    tonp = lambda v: v.numpy() if isinstance(v, torch.Tensor) else v
+    try:
+        if fn == "currents_linear":
+            tc, a, b, rest = par(5.0, 60.0), par(-0.5, 1.5), par(0.0, 2.0), -60.0
+            got = nf.adaptive_currents_linear(adapt, volt, spikes, step_time=dt, rest_v=rest, time_constant=tc,
+                                              voltage_coupling=a, spike_increment=b, refracs=refracs)
+            exp = np.where(frozen, A, A + (dt / tonp(tc)) * (tonp(a) * (V - rest) - A)) + tonp(b) * S
+        elif fn == "thresholds_linear_voltage":
+            ar, rr, rest = par(0.0, 0.05), par(0.0, 0.3), -60.0
+            floor = desc["floor"]
+            got = nf.adaptive_thresholds_linear_voltage(adapt, volt, step_time=dt, rest_v=rest, adapt_rate=ar, rebound_rate=rr,
+                                                        adapt_reset_min=floor, spikes=(spikes if desc["with_spikes"] else None),
+                                                        refracs=refracs)
+            exp = np.where(frozen, A, A + dt * (tonp(ar) * (V - rest) - tonp(rr) * A))
+            if floor is not None and desc["with_spikes"]:
+                exp = np.where(S, np.maximum(exp, floor), exp)
+        else:
+            tc, inc = par(5.0, 60.0), par(0.0, 2.0)
+            got = nf.adaptive_thresholds_linear_spike(adapt, spikes, step_time=dt, time_constant=tc, spike_increment=inc, refracs=refracs)
+            exp = np.where(frozen, A, A * np.exp(-dt / tonp(tc))) + tonp(inc) * S
+    except Exception as e:  # noqa: BLE001
+        return ctx.violation(ctx.exc_signature(e, f"adaptation_fn.{fn}"), f"{type(e).__name__}: {str(e)[:140]}", desc)
+    ctx.count("adaptation_function_checks", int(exp.size))
+    # a python-float increment times a boolean spike tensor is formed in single precision (torch's default): 1e-7 relative
+    if tuple(got.shape) != exp.shape or not np.allclose(got.numpy(), exp, rtol=1e-6, atol=1e-6):
+        return ctx.violation(f"adaptation_fn.{fn}.ne_documented_update", "returned adaptations differ from the documented update "
+                             "(frozen while refractory, increment / floor after a spike)", desc)
+
+
 def run_case(ctx, desc):
     if desc["part"] == "tie":
         return _tie(ctx, desc)
+    if desc["part"] == "adaptation_fn":
+        return _adaptation_fn(ctx, desc)
     cls, dt, p = desc["cls"], desc["dt"], desc["params"]
     if ctx.counters.get("sampled." + cls, 0) == 0 and len(ctx.samples) < 4:
         ctx.count("sampled." + cls)
